@@ -1562,6 +1562,67 @@ pos("C01", "processor-commits-before-fan-out", "the bytes of a peeked PUBLISH ar
     ["C01/P5-order/processor:commit-after-use-of-peeked-bytes"])
 
 
+# ---------------------------------------------------------------- rules of seeded round 5
+PA = "message/puback.go"
+SA = "message/suback.go"
+MISC = "service/misc.go"
+SREMOVE_OLD = "				sn.subs = append(sn.subs[:i], sn.subs[i+1:]...)\n				sn.qos = append(sn.qos[:i], sn.qos[i+1:]...)\n"
+for prop in ("C06", "C01"):
+    pos(prop, "sremove-qos-only-truncated", "the subscriber list is shifted over the removed entry, the QoS list only loses its last entry",
+        [(MT, SREMOVE_OLD, "				last := len(sn.subs) - 1\n				copy(sn.subs[i:], sn.subs[i+1:])\n				sn.subs[last] = nil\n				sn.subs = sn.subs[:last]\n				sn.qos = sn.qos[:last]\n")],
+        [prop + "/T5-co-update/sremove:parallel-lists-shrink-alike"])
+    pos(prop, "sremove-swap-vs-shift", "swap-delete on the subscriber list, shift-delete on the QoS list",
+        [(MT, SREMOVE_OLD, "				last := len(sn.subs) - 1\n				sn.subs[i] = sn.subs[last]\n				sn.subs[last] = nil\n				sn.subs = sn.subs[:last]\n				sn.qos = append(sn.qos[:i], sn.qos[i+1:]...)\n")],
+        [prop + "/T5-co-update/sremove:parallel-lists-shrink-alike"])
+    neg(prop, "neg-sremove-copy-shift-both", "both lists shifted with copy and shortened by one",
+        [(MT, SREMOVE_OLD, "				last := len(sn.subs) - 1\n				copy(sn.subs[i:], sn.subs[i+1:])\n				sn.subs[last] = nil\n				sn.subs = sn.subs[:last]\n				copy(sn.qos[i:], sn.qos[i+1:])\n				sn.qos = sn.qos[:last]\n")])
+    pos(prop, "equal-falls-back-to-deepequal", "tokens that are not == are compared structurally",
+        [(MT, "		return k1 == k2.(uintptr)\n	}\n\n	return false\n}", "		return k1 == k2.(uintptr)\n	}\n\n	return reflect.DeepEqual(k1, k2)\n}")],
+        [prop + "/T5-co-update/subscriber-identity:decided-by-=="])
+pos("C03", "puback-id-by-copy-count", "the acknowledgement encoder advances by the number of identifier bytes copied (0 for an unset identifier)",
+    [(PA, "	if copy(dst[total:total+2], m.packetID) != 2 {\n		dst[total], dst[total+1] = 0, 0\n	}\n	total += 2\n", "	n = copy(dst[total:], m.packetID)\n	total += n\n")],
+    ["C03/T10-length-writer-agreement/(*message.PubackMessage).Encode:packet-id-written-as-two-bytes"])
+pos("C03", "header-decode-copies-flag-byte", "the header decoder copies the type/flags byte into the message's own buffer",
+    [(HDR, "	h.mtypeflags = src[total : total+1]\n", "	h.mtypeflags[0] = src[total]\n")],
+    ["C03/T3-dirty-discipline/(*message.header).decode:mtypeflags-is-view-of-input"])
+pos("C07", "suback-len-without-remaining-length", "SubackMessage.Len adds the body to a header length computed for the old remaining length",
+    [(SA, "	ml := m.msglen()\n\n	if err := m.SetRemainingLength(int32(ml)); err != nil {\n		return 0\n	}\n\n	return m.header.msglen() + ml\n}\n\n// Decode decodes the message.", "	return m.header.msglen() + m.msglen()\n}\n\n// Decode decodes the message.")],
+    ["C07/T3-dirty-discipline/(*message.SubackMessage).Len:header-length-after-remaining-length"])
+pos("C04", "connect-refuses-username-without-password", "a new flag validation with the wrong mask refuses user name without password",
+    [(CONN, "	if len(src[total:]) < 2 {\n		return 0, fmt.Errorf(\"connect/decodeMessage: Insufficient buffer size. Expecting %d, got %d\", 2, len(src[total:]))\n	}\n", "	if m.connectFlags&0xc0 == 0x80 {\n		return total, fmt.Errorf(\"connect/decodeMessage: password flag without user name flag\")\n	}\n\n	if len(src[total:]) < 2 {\n		return 0, fmt.Errorf(\"connect/decodeMessage: Insufficient buffer size. Expecting %d, got %d\", 2, len(src[total:]))\n	}\n")],
+    ["C04/T12-flag-refusals-within-spec/decodeMessage:flag-test"])
+neg("C04", "neg-connect-refuses-password-without-username", "the validation MQTT-3.1.2-22 with the right mask",
+    [(CONN, "	if len(src[total:]) < 2 {\n		return 0, fmt.Errorf(\"connect/decodeMessage: Insufficient buffer size. Expecting %d, got %d\", 2, len(src[total:]))\n	}\n", "	if m.connectFlags&0xc0 == 0x40 {\n		return total, fmt.Errorf(\"connect/decodeMessage: password flag without user name flag\")\n	}\n\n	if len(src[total:]) < 2 {\n		return 0, fmt.Errorf(\"connect/decodeMessage: Insufficient buffer size. Expecting %d, got %d\", 2, len(src[total:]))\n	}\n")])
+pos("C19", "accept-clears-deadline-after-start", "the accept function clears the read deadline after the service was started",
+    [(SRV, "	if err := svc.start(); err != nil {\n		svc.stop()\n		return nil, err\n	}\n", "	if err := svc.start(); err != nil {\n		svc.stop()\n		return nil, err\n	}\n	conn.SetReadDeadline(time.Time{})\n")],
+    ["C19/P5-order/(*service.Server).handleConnection:read-deadline-not-moved-after-start"])
+pos("C11", "connect-message-from-pool", "the CONNECT is decoded into a recycled message",
+    [(MISC, "	msg := message.NewConnectMessage()\n\n	_, err = msg.Decode(buf)\n	return msg, err", "	msg := connectPool.Get().(*message.ConnectMessage)\n\n	_, err = msg.Decode(buf)\n	return msg, err"),
+     (MISC, "func getConnectMessage(conn io.Closer)", "var connectPool = sync.Pool{New: func() interface{} { return message.NewConnectMessage() }}\n\nfunc getConnectMessage(conn io.Closer)"),
+     (MISC, "	\"net\"\n", "	\"net\"\n	\"sync\"\n")],
+    ["C11/P9-who-may/service.getConnectMessage:CONNECT-decoded-into-a-fresh-message"])
+WILL_BLOCK = "	// Publish will message if WillFlag is set. Server side only.\n	if !svc.client && svc.sess.Cmsg.WillFlag() {\n		log.Warningf(\"(%s) Connection unexpectedly closed, sending will message\", svc.cid())\n		svc.onPublish(svc.sess.Will)\n	}\n\n"
+pos("C18", "will-before-the-join", "teardown hands the will on while the connection's goroutines still run",
+    [(SVC, WILL_BLOCK, ""),
+     (SVC, "	// Wait for all the goroutines to stop.\n	svc.wgStopped.Wait()\n", WILL_BLOCK + "	// Wait for all the goroutines to stop.\n	svc.wgStopped.Wait()\n")],
+    ["C18/G3-goroutine-confinement/service.service.subs:confined"])
+pos("C18", "clone-decodes-original-buffer", "Clone decodes the original's encoded image instead of a fresh copy",
+    [(PUB, "	l := m.Len()\n	buf := make([]byte, l)\n	if _, err := m.Encode(buf); err != nil {\n		return nil, err\n	}\n	cm := NewPublishMessage()\n", "	cm := NewPublishMessage()\n	if !m.dirty && len(m.dbuf) > 0 {\n		if _, err := cm.Decode(m.dbuf); err != nil {\n			return nil, err\n		}\n		return cm, nil\n	}\n	l := m.Len()\n	buf := make([]byte, l)\n	if _, err := m.Encode(buf); err != nil {\n		return nil, err\n	}\n")],
+    ["C18/G7-clone-before-mutate/PublishMessage.Clone:shares-nothing-with-the-original"])
+pos("C20", "client-publishes-own-will", "the will step of teardown no longer asks for the broker role",
+    [(SVC, "	if !svc.client && svc.sess.Cmsg.WillFlag() {", "	if svc.sess != nil && svc.sess.Cmsg.WillFlag() {")],
+    ["C20/P8-guard-contract/teardown:will-iff-flag:only-if(field:service.service.client)"])
+pos("C05", "unsubscribe-under-read-lock", "Unsubscribe rewrites the shared tree under the read lock",
+    [(MT, "func (mt *MemTopics) Unsubscribe(topic []byte, sub interface{}) error {\n	mt.smu.Lock()\n	defer mt.smu.Unlock()", "func (mt *MemTopics) Unsubscribe(topic []byte, sub interface{}) error {\n	mt.smu.RLock()\n	defer mt.smu.RUnlock()")],
+    ["C05/G1-guarded-by/MemTopics.Unsubscribe:sremove-under-MemTopics.smu"])
+pos("C02", "wrap-path-writes-whole-scratch", "the wrap path of the packet writer writes the whole scratch buffer instead of the bytes encoded",
+    [(SR, "		m, err = svc.out.Write(svc.outtmp[0:n])", "		m, err = svc.out.Write(svc.outtmp[0:])")],
+    ["C02/L7-critical-span/writeMessage:wrap-path-writes-what-was-encoded"])
+pos("C08", "allretained-skips-own-message", "the '#' walk collects the children's messages but not the node's own",
+    [(MT, "	if rn.msg != nil {\n		*msgs = append(*msgs, rn.msg)\n	}\n\n	for _, n := range rn.rnodes {\n		n.allRetained(msgs)\n	}", "	for _, n := range rn.rnodes {\n		if n.msg != nil {\n			*msgs = append(*msgs, n.msg)\n		}\n\n		n.allRetained(msgs)\n	}")],
+    ["C08/P4-loop-contract/allRetained:collects-own-message"])
+
+
 def main():
     os.makedirs(OUT, exist_ok=True)
     for prop, cs in sorted(C.items()):
